@@ -206,6 +206,39 @@ P["C11"] = {
     ],
 }
 
+F = "io_uring::fd::verif_fd::"
+N = "io_uring::net::verif_net::"
+PI = "io_uring::pipe::verif_pipe::"
+IO = "io::verif_io::"
+LEDGER = "libc close/mmap/munmap/madvise are the ledger models in kani/env.rs (ASSUMED POSIX behaviour); io_uring_register is the recording kernel model"
+P["C07"] = {
+    "level_text": "Proof on the real code, all descriptor values and ring counters: the descriptor word round-trips (number, kind); AsyncFd's Drop issues exactly one CLOSE request of exactly that descriptor as its kind (regular: fd; direct: file_index = fd+1; reserved user_data; no success event) or, with a full queue, exactly one close(2) / one REGISTER_FILES_UPDATE{offset=fd,[-1]} and never both; AsyncFd::close consumes the value without running Drop and its operation targets the same (fd, kind); the standard-stream wrappers never close; every descriptor-returning decoder wraps the kernel's descriptor exactly once with the requested / inherited kind.",
+    "level_note": "KNOWN FINDING F9 (reproduced against the real kernel, findings/F9): a descriptor delivered to an operation whose future was dropped while in flight is never closed. Accept/Open decoders are covered under C13/C16 where built. Direct indices are assumed < i32::MAX (kernel table limit is 2^20). Ledger models for close/register are assumed.",
+    "functions": [
+        {"file": "src/io_uring/fd.rs", "fn": r"^    fn drop\(&mut self\)"},
+        {"file": "src/fd.rs", "fn": r"pub\(crate\) unsafe fn from_raw\("},
+        {"file": "src/fd.rs", "fn": r"pub\(crate\) fn fd\(&self\) -> RawFd"},
+        {"file": "src/fd.rs", "fn": r"pub fn kind\(&self\) -> Kind"},
+        {"file": "src/io_uring/io.rs", "fn": r"pub\(crate\) fn close_file_fd\("},
+        {"file": "src/io_uring/io.rs", "fn": r"pub\(crate\) fn close_direct_fd\("},
+        {"file": "src/io/mod.rs", "fn": r"pub fn close\(self\) -> Close"},
+    ],
+    "trusted_base": [KERNEL, LEDGER, KANIBUG],
+    "assumptions": ["'while its Ring exists' - behaviour after the ring is gone is C12"],
+    "obligations": [
+        K("c07.fd_bits", "fd.rs", F + "c07_fd_bits", "AsyncFd::from_raw(fd, kind).fd() == fd and .kind() == kind for every fd >= 0 and both kinds (sign bit marks direct)", ["fd::AsyncFd::from_raw", "fd::AsyncFd::fd", "fd::AsyncFd::kind"]),
+        K("c07.drop", "fd.rs", F + "c07_drop", "Drop for AsyncFd, all counters/fds/kinds: room => exactly one CLOSE{fd | file_index=fd+1, CLOSE_USER_DATA, SKIP_SUCCESS}, rest zero, other entry untouched, no sync close; full => no entry, regular: exactly one close(fd), direct: exactly one REGISTER_FILES_UPDATE{offset=fd, fds=[-1], nr=1} on the ring fd and no close(2)", ["io_uring::fd::<impl Drop for AsyncFd>::drop", "io_uring::io::close_file_fd", "io_uring::io::close_direct_fd"]),
+        K("c07.close.consumes", "io_mod.rs", IO + "c07_close_consumes", "AsyncFd::close: nothing queued, nothing closed (Drop not run), Close op args == (fd, kind)", ["io::AsyncFd::close"]),
+        K("c07.stdio", "io_mod.rs", IO + "c07_stdio", "dropping Stdin/Stdout/Stderr: no CLOSE request, no close(2), for any queue state", ["io::Stdin/Stdout/Stderr::drop"]),
+        K("c07.wrap.socket", "net_uring.rs", N + "c07_wrap_socket", "SocketOp::map_ok: one AsyncFd, fd == kernel result, kind == requested", ["io_uring::net::SocketOp::map_ok"]),
+        K("c07.wrap.multishot_accept", "net_uring.rs", N + "c07_wrap_multishot_accept", "MultishotAcceptOp::map_next: one AsyncFd per result, kind inherited from the listener, listener untouched", ["io_uring::net::MultishotAcceptOp::map_next"]),
+        K("c07.wrap.pipe", "pipe_uring.rs", PI + "c07_wrap_pipe", "PipeOp::map_ok: both descriptors wrapped once, in order, requested kind", ["io_uring::pipe::PipeOp::map_ok"]),
+        K("c07.wrap.to_direct", "fd.rs", F + "c07_wrap_to_direct", "ToDirectOp::map_ok: the index written back becomes one Direct AsyncFd", ["io_uring::fd::ToDirectOp::map_ok"]),
+        K("c07.wrap.to_fd", "fd.rs", F + "c07_wrap_to_fd", "ToFdOp: FIXED_FD_INSTALL of this direct descriptor; result one regular AsyncFd; original keeps its descriptor", ["io_uring::fd::ToFdOp::fill_submission", "io_uring::fd::ToFdOp::map_ok"]),
+        K("c07.abandoned.socket", "net_uring.rs", N + "c07_abandoned_socket", "descriptor returned for an abandoned (dropped while in flight) socket operation is closed  [KNOWN FINDING F9]", ["io_uring::op::Shared::update", "io_uring::op::drop_state"]),
+    ],
+}
+
 def main():
     os.makedirs(os.path.join(V, "obligations"), exist_ok=True)
     for pid, p in P.items():
